@@ -978,7 +978,11 @@ class Data(object):
             else:
                 raise AttributeError("Invalid attribute name '%s'" % key)
         else: #pass on to superclass
-            super(Data,self).__setattr__(key,value)
+            if ((key in self.__dict__) or REO_IdentPub.match(key) or
+                    any(hasattr(vars(klass).get(key), '__set__') for klass in type(self).__mro__)):
+                super(Data,self).__setattr__(key,value) #field or data descriptor such as __dict__
+            else: #private name of a method or class attribute is not a field name so don't shadow it
+                raise AttributeError("Invalid attribute name '%s'" % key)
 
     def __delattr__(self, key):
         """Convert delattr of a field to delitem on self.__dict__
